@@ -1,7 +1,7 @@
 """Which rules decide which property."""
 from __future__ import annotations
 
-from .rules import frag, c01, c02, c03, c11, c14, c18, c19, c20, cglob, cflags, clists
+from .rules import frag, c01, c02, c03, c10, c11, c14, c18, c19, c20, cglob, cflags, clists
 
 ASSUME = [
     'stdlib ast and re._parser front ends are correct',
@@ -290,6 +290,22 @@ PROPERTIES = {
             ('C07-R2', clists.rule_is_negative_table, 'quick'),
             ('C09-R3', clists.rule_escape_entry_points, 'quick'),
             ('C05-R3', cglob.rule_magic_classification, 'quick'),
+        ],
+    },
+    'C10': {
+        'explanation': 'exception-escape analysis (least fixpoint over the resolved call graph with handler subtraction, generator '
+                       'and for-loop rules, parameter-guard context refinement), definite-assignment dataflow on every CFG, '
+                       'recovery pairing of the StopIteration handlers, range safety of bracket expressions',
+        'assumptions': ASSUME + ['re.error from an unbalanced regex, IndexError on current[-1] and RecursionError are not decided',
+                                 'StringIter.rewind never rewinds past the beginning (index bookkeeping invariant)'],
+        'rules': [
+            ('C10-R1', c10.rule_internal_exceptions, 'quick'),
+            ('C10-R2', c10.rule_documented_errors, 'quick'),
+            ('C10-R3', c10.rule_definite_assignment, 'quick'),
+            ('C10-R4', c10.rule_recovery_pairing, 'quick'),
+            ('C10-R5', c10.rule_range_safety, 'quick'),
+            ('C01-R4', c01.rule_posix_tables, 'quick'),
+            ('C20-R3', c20.rule_translation_table, 'quick'),
         ],
     },
 }
